@@ -93,6 +93,19 @@ pub fn hex(bs: &[u8]) -> String {
 	}
 	s
 }
+/// a Coq `list byte` literal (much cheaper for coqc to read than a string literal)
+pub fn blist(bs: &[u8]) -> String {
+	let mut s = String::with_capacity(bs.len() * 4 + 2);
+	s.push('[');
+	for (i, b) in bs.iter().enumerate() {
+		if i > 0 {
+			s.push(';');
+		}
+		write!(s, "x{:02x}", b).unwrap();
+	}
+	s.push(']');
+	s
+}
 pub fn unhex(s: &str) -> Vec<u8> {
 	let s = s.as_bytes();
 	(0..s.len() / 2)
@@ -125,6 +138,10 @@ pub struct Cases {
 	seen: HashSet<u64>,
 	pub nontrivial: usize,
 	pub dups: usize,
+	pub bytes: usize,
+	pub max_total: usize,
+	pub max_case: usize,
+	pub skipped_big: usize,
 }
 fn fnv(s: &str) -> u64 {
 	let mut h = 0xcbf29ce484222325u64;
@@ -145,6 +162,10 @@ impl Cases {
 			seen: HashSet::new(),
 			nontrivial: 0,
 			dups: 0,
+			bytes: 0,
+			max_total: 24 << 20,
+			max_case: 1 << 20,
+			skipped_big: 0,
 		}
 	}
 	/// returns false if the case was a duplicate
@@ -153,6 +174,12 @@ impl Cases {
 			self.dups += 1;
 			return false;
 		}
+		// coqc reads ~30 KB of literal per millisecond: keep the whole run within budget
+		if term.len() > self.max_case || self.bytes + term.len() > self.max_total {
+			self.skipped_big += 1;
+			return false;
+		}
+		self.bytes += term.len();
 		if nontrivial {
 			self.nontrivial += 1;
 		}
@@ -166,10 +193,21 @@ impl Cases {
 	pub fn write(&self, dir: &Path, prefix: &str, shards: usize) {
 		let n = self.terms.len();
 		let shards = shards.max(1).min(n.max(1));
+		// balance shards by size: deal cases round-robin in decreasing size order
+		let mut order: Vec<usize> = (0..n).collect();
+		order.sort_by_key(|&i| std::cmp::Reverse(self.terms[i].len()));
+		let mut buckets: Vec<Vec<usize>> = vec![vec![]; shards];
+		let mut load = vec![0usize; shards];
+		for i in order {
+			let s = (0..shards).min_by_key(|&s| load[s]).unwrap();
+			load[s] += self.terms[i].len() + 200;
+			buckets[s].push(i);
+		}
 		let mut index = fs::File::create(dir.join(format!("{prefix}_index.tsv"))).unwrap();
 		for s in 0..shards {
-			let lo = n * s / shards;
-			let hi = n * (s + 1) / shards;
+			let ids = &buckets[s];
+			let lo = 0;
+			let hi = ids.len();
 			let mut f = fs::File::create(dir.join(format!("{prefix}_{s:02}.v"))).unwrap();
 			writeln!(f, "{}", self.header).unwrap();
 			writeln!(f, "Open Scope string_scope.").unwrap();
@@ -180,8 +218,8 @@ impl Cases {
 				let j = (i + 100).min(hi);
 				writeln!(f, "Definition cs{c} : list {} := [", self.case_ty).unwrap();
 				for k in i..j {
-					writeln!(f, "  {}{}", self.terms[k], if k + 1 < j { ";" } else { "" }).unwrap();
-					writeln!(index, "{prefix}_{s:02}\t{}\t{}", k - lo, self.replay[k]).unwrap();
+					writeln!(f, "  {}{}", self.terms[ids[k]], if k + 1 < j { ";" } else { "" }).unwrap();
+					writeln!(index, "{prefix}_{s:02}\t{}\t{}", k - lo, self.replay[ids[k]]).unwrap();
 				}
 				writeln!(f, "].").unwrap();
 				chunks.push(format!("cs{c}"));
